@@ -71,3 +71,12 @@ Example C02_example_indices :
   klm_at 2 (nindex 1 0) = (1, 1, 0) /\ nindex 1 0 < ncart 2 /\
   lsd_minus_idx (ncart 1) 0 1 0 = pos (down 0 (1, 1, 0)) /\ lsd_plus_idx 1 1 0 = pos (up 1 (1, 1, 0)).
 Proof. vm_compute. repeat split; auto. Qed.
+
+From Coq Require Import Reals.
+From Coquelicot Require Import Coquelicot.
+From LV Require Import Base.Cart Deriv.DerivModel Deriv.DerivProofs Deriv.GaussDeriv.
+(* The formal rule D1 the contraction theorem is about IS the derivative of the primitive Cartesian Gaussian w.r.t. its centre (Deriv/GaussDeriv.v). *)
+Theorem C02_formal_rule_is_the_derivative : forall (a : R) (t : triple) (A x : vec3) (q : nat), (q < 3)%nat ->
+  is_derive (fun s => prim a t (vset q A s) x) (vget q A) (lc_eval a (D1 a q t) A x).
+Proof. exact D1_is_derivative. Qed.
+Print Assumptions C02_formal_rule_is_the_derivative.
